@@ -393,13 +393,31 @@ static void plan_generated(const char* prop, const std::vector<int>& fns, long b
         value_block<T>(S, prop, it.fn, x, bin ? y : nullptr, 4096, it.layout, all_libs); });
 }
 
+// fixed probe arguments: one block per open known finding, so that every listed finding is observed (and printed as
+// KNOWN-FINDING) in every run whatever the seed, and a finding that disappears is noticed
+template <class T>
+static void plan_probes(const char* prop, const std::vector<std::pair<int, double>>& probes)
+{
+    parallel_for(probes.size(), [&](uint64_t i, Stats& S)
+                 {
+        if (!selected(MATHFN[probes[i].first].name, FT<T>::name()))
+            return;
+        T x[64];
+        for (int k = 0; k < 64; ++k)
+            x[k] = (T)probes[i].second;
+        value_block<T>(S, prop, probes[i].first, x, nullptr, 64, 0, all_libs); });
+}
+
 static void run_C10()
 {
+    plan_probes<float>("C10", { { FN_LGAMMA, -1e-30 }, { FN_LGAMMA, -7.999946117401123 }, { FN_LGAMMA, -8.9999885559082031 }, { FN_TGAMMA, -35.99998092651367 } });
     plan_f32_sweeps("C10");
     plan_generated<float>("C10", { FN_ATAN2, FN_HYPOT, FN_POW }, budget(64, 8192)); // 2.6e5 / 3.4e7 pairs per function per arch
 }
 static void run_C11()
 {
+    plan_probes<double>("C11", { { FN_COS, 45.553093477052002 }, { FN_SIN, 9.42477796076938 }, { FN_TAN, -43.982297150257104 }, { FN_SINCOS, 23.56194490192345 },
+                                 { FN_SINCOS, -9.42477796076938 }, { FN_TGAMMA, -171.99999999999957 }, { FN_TGAMMA, -139.08883666992188 } });
     std::vector<int> fns;
     for (int fn = 0; fn <= FN_POW; ++fn)
         fns.push_back(fn);
